@@ -29,7 +29,8 @@ def play_restart(kind, cls, pre):
     env.plan = [(0, cls)]
     viol = []
     with life.patched(env):
-        w = cmap[kind](lambda x: x, args=[7], name='w0', userid=42)
+        opts = dict(args=[7], name='w0', userid=42) if len(pre) % 2 == 0 else dict(args=[7], name='w0', userid=0, init_state=0, set_names=False)
+        w = cmap[kind](lambda x: x, **opts)
         child, log, _ = env.children[0]
         for op in pre:
             if op[0] == 'IsAlive':
@@ -56,8 +57,11 @@ def play_restart(kind, cls, pre):
                 viol.append('restart() returned a worker which is not alive')
             if w.id == old_id:
                 viol.append('restart() returned but the identity did not change')
-            if (w.name, w.userid, w._args) != ('w0', 42, [7]):
-                viol.append(f'restart() changed name/userid/defaults: {(w.name, w.userid, w._args)}')
+            got = dict(args=w._args, name=w.name, userid=w.userid)
+            if 'set_names' in opts:
+                got.update(init_state=w._user_state, set_names=w._set_names)
+            if got != opts:
+                viol.append(f'restart() changed the constructor options: {got} (constructed with {opts})')
         else:
             if not child.alive:
                 viol.append('restart() raised although the old child is gone')
